@@ -201,10 +201,47 @@ func (g *Gen) wellFormed(term string, t types.Type, alloc string) string {
 			g.notInHeapTypes(pObj(p), t.Underlying().(*types.Slice).Elem()),
 			sImp(sEq(pObj(p), "0"), sEq(app("sl.cap", term), g.M.IxLit(0))))
 	case "Iface":
-		return sAnd(app("<=", pObj(app("if.val", term)), alloc), app("<=", "0", pObj(app("if.val", term))), app("<=", "0", app("if.dyn", term)),
-			sImp(sEq(app("if.dyn", term), "0"), sEq(app("if.val", term), nilPtr(g.M))))
+		cs := []string{app("<=", pObj(app("if.val", term)), alloc), app("<=", "0", pObj(app("if.val", term))), app("<=", "0", app("if.dyn", term)),
+			sImp(sEq(app("if.dyn", term), "0"), sEq(app("if.val", term), nilPtr(g.M)))}
+		// an interface whose dynamic type is a pointer to a heap-only type holds a pointer to an object of that type
+		for _, h := range g.DB.HeapTypes {
+			if ht := g.lookupNamed(h); ht != nil {
+				v := app("if.val", term)
+				cs = append(cs, sImp(sEq(app("if.dyn", term), fmt.Sprint(g.typeID(types.NewPointer(ht)))),
+					sOr(sEq(pObj(v), "0"), sAnd(sEq(app("objtype", pObj(v)), fmt.Sprint(g.typeID(ht))), sEq(pOff(v), g.M.IxLit(0))))))
+			}
+		}
+		return sAnd(cs...)
 	case "Str":
 		return g.M.ixLe(g.M.IxLit(0), app("slen", term))
+	}
+	return "true"
+}
+
+// typedFacts: what Go's type safety says about a reference of static type t with respect to the heap-only types.
+func (g *Gen) typedFacts(term string, t types.Type) string {
+	switch g.sortOf(t) {
+	case "Ptr":
+		if et, ok := deref(t); ok {
+			if g.isHeapType(et) {
+				return sOr(sEq(pObj(term), "0"), sAnd(sEq(app("objtype", pObj(term)), fmt.Sprint(g.typeID(et))), sEq(pOff(term), g.M.IxLit(0))))
+			}
+			return g.notInHeapTypes(pObj(term), et)
+		}
+	case "Slice":
+		if st, ok := t.Underlying().(*types.Slice); ok {
+			return g.notInHeapTypes(pObj(app("sl.ptr", term)), st.Elem())
+		}
+	case "Iface":
+		var cs []string
+		for _, h := range g.DB.HeapTypes {
+			if ht := g.lookupNamed(h); ht != nil {
+				v := app("if.val", term)
+				cs = append(cs, sImp(sEq(app("if.dyn", term), fmt.Sprint(g.typeID(types.NewPointer(ht)))),
+					sOr(sEq(pObj(v), "0"), sAnd(sEq(app("objtype", pObj(v)), fmt.Sprint(g.typeID(ht))), sEq(pOff(v), g.M.IxLit(0))))))
+			}
+		}
+		return sAnd(cs...)
 	}
 	return "true"
 }
